@@ -198,6 +198,16 @@ fn run_rich(c: Config<RichDecorator>, html: &[u8], w: usize, route: &str) -> Out
     }
 }
 
+/// As `run_one`, with the library's trace hook (cfg html2text_verif) recording one event per
+/// do_render_node call: returns the events as [kind, 17 scalars] arrays.
+pub fn run_one_steps(html: &[u8], w: usize, cfg: &Value, route: &str) -> (Outcome, Value, Value) {
+    html2text::verif::start();
+    let (o, ds) = run_one(html, w, cfg, route);
+    let ev = html2text::verif::take();
+    let steps: Vec<Value> = ev.into_iter().map(|(k, p)| { let mut v = vec![json!(k)]; v.extend(p.iter().map(|x| json!(x))); Value::Array(v) }).collect();
+    (o, ds, Value::Array(steps))
+}
+
 /// Build the configuration named by `cfg` and run one route. Returns (outcome, decorator strings).
 pub fn run_one(html: &[u8], w: usize, cfg: &Value, route: &str) -> (Outcome, Value) {
     let ops: Vec<Value> = cfg.get("ops").and_then(|o| o.as_array()).cloned().unwrap_or_default();
